@@ -1,7 +1,7 @@
 (* C04: the leaf functions of the allocation table model are EQUAL to the definitions tools/cxx2coq.py regenerates from
    /repo's MemoryLeakDetector.cpp on every run (gen/Gen_Leaf.v): bucket hash, isInPeriod, isInAllocationStage. *)
 From Coq Require Import ZArith NArith Bool List Lia.
-From CppUVerif Require Import lib.CSem gen.Gen_Common gen.Gen_Leaf C04_Model.
+From CppUVerif Require Import lib.CSem gen.Gen_Common gen.Gen_LeafC04 C04_Model.
 Local Open Scope Z_scope.
 
 (* enum MemLeakPeriod { all = 0, disabled, enabled, checking } -- the enumerator values are read from the source by the translator *)
